@@ -18,6 +18,7 @@ class Env:
         self.wpush = []     # signals this context drives with ^=
         self.wvar = []      # variables of this context
         self.warr = []      # (Obj array, count, is_signal)
+        self.wbool = []     # Variable[bool] objects of this context (only read in conditions, only written with bool(..))
         self.locals = []    # single-assignment local names (Obj)
         self.counter = [0]
 
@@ -172,7 +173,7 @@ class ExprGen:
         r = self.rnd
         form = r.choice(['bit', 'bit', 'cmp', 'not', 'and', 'or']) if depth > 0 else r.choice(['bit', 'cmp'])
         if form == 'bit':
-            c = self.readable(lambda o: o.kind == 'bit')
+            c = self.readable(lambda o: o.kind in ('bit', 'bool'))
             if c:
                 return r.choice(c).src
             form = 'cmp'
@@ -310,7 +311,8 @@ class BodyGen:
         r = self.rnd
         out = []
         while size > 0:
-            form = r.choice(['assign'] * 5 + ['if'] * 3 + ['match', 'forbreak', 'helper', 'local'] + (['matchret'] if r.random() < 0.15 else []))
+            form = r.choice(['assign'] * 5 + ['if'] * 3 + ['match', 'forbreak', 'helper', 'local'] + (['matchret'] if r.random() < 0.15 else [])
+                            + (['boolcap', 'boolvar'] if self.env.wbool else []))
             if depth <= 0 and form in ('if', 'match', 'forbreak'):
                 form = 'assign'
             # every early-exit construct multiplies the compiler's open blocks: keep their number small,
@@ -325,6 +327,24 @@ class BodyGen:
                 if s:
                     out.append(s)
                 size -= 1
+            elif form == 'boolvar':
+                out.append(('var', r.choice(self.env.wbool).src, f"bool({self.eg.cond(1)})"))
+                self.features.add('bool-variable')
+                size -= 1
+            elif form == 'boolcap' and depth == self.top_depth:
+                # the value of a Variable[bool] is captured, the variable is overwritten, the captured value is used afterwards
+                vb = r.choice(self.env.wbool)
+                name = self.env.fresh('t')
+                out.append(('assign', name, f"bool({vb.src})"))
+                if r.random() < 0.8:
+                    out.append(('var', vb.src, f"bool({self.eg.cond(1)})"))
+                self.env.locals.append(Obj(name, 'bool', None, name, 'local'))
+                if r.random() < 0.7:
+                    st = self.assign_stmt()
+                    if st:
+                        out.append(('if', [(name if r.random() < 0.6 else f"(not {name})", [st])], None))
+                self.features.add('bool-variable-captured')
+                size -= 2
             elif form == 'local' and depth == self.top_depth:
                 st, o = self.local_assign()
                 out.append(st)
@@ -450,6 +470,8 @@ class BodyGen:
                 forms += ['awaitcall']
             if in_loop:
                 forms += ['break', 'continue'] if ticked else ['break']
+            if depth > 0 and r.random() < (0.3 if not out and not in_loop else 0.08):
+                forms = ['wtshape']
             if self.allow.get('subs', True) and not in_sub and depth > 0:
                 forms += ['awaitsub']
             if in_sub:
@@ -549,6 +571,52 @@ class BodyGen:
                 self.features.add('while' if cond else 'while-true')
                 ticked = True      # entering or leaving a loop that was not first costs... be conservative:
                 size -= 3
+            elif form == 'wtshape':
+                # `while True` skeletons whose exits and restarts sit in particular places: an exit before the first await of
+                # the body, a `continue` after an await (plain, under `if`, or as a whole `match` case), nothing or little
+                # after the loop
+                b = []
+                if r.random() < 0.6:
+                    b += self.simple()
+                leave = ('ret', None) if in_sub and r.random() < 0.3 else ('break',)
+                if r.random() < 0.7:
+                    b.append(('if', [(self.eg.cond(1), (self.simple() if r.random() < 0.4 else []) + [leave])], None))
+                b.append(('await', self.eg.cond(1)))
+                if r.random() < 0.5:
+                    b += self.simple()
+                subj = self.eg.readable(lambda o: o.kind in ('u', 'bv') and o.w is not None and o.w >= 2 and o.role in ('in', 'sig', 'out'))
+                k = r.random()
+                if k < 0.4 and subj:
+                    o = r.choice(subj)
+                    ssrc, sk = (o.src, o.kind) if o.w == 2 else (f"{o.src}[1:0]", 'bv')
+                    vals = r.sample(range(4), r.randint(2, 3))
+                    arms = []
+                    for i, v in enumerate(vals):
+                        body_i = [('continue',)] if i == 0 else (self.simple() + ([r.choice([('continue',), leave])] if r.random() < 0.3 else []))
+                        arms.append((str(v) if sk == 'u' else f"'{v:02b}'", body_i))
+                    r.shuffle(arms)
+                    d = (self.simple() + ([leave] if r.random() < 0.3 else [])) if r.random() < 0.6 else None
+                    b.append(('match', ssrc, arms, d))
+                    self.features.add('continue-as-match-case')
+                elif k < 0.75:
+                    b.append(('if', [(self.eg.cond(1), (self.simple() if r.random() < 0.4 else []) + [('continue',)])], None))
+                    self.features.add('continue-after-await')
+                else:
+                    b += self.simple()
+                if r.random() < 0.5:
+                    b += self.simple()
+                    if r.random() < 0.4:
+                        b.append(('await', self.eg.cond(1)))
+                if r.random() < 0.4:
+                    b.append(leave)
+                elif not any(x[0] in ('break', 'ret') for x in flat(b)):
+                    b.append(('if', [(self.eg.cond(0), [('break',)])], None))
+                out.append(('while', None, b))
+                self.features.add('while-true-shape')
+                ticked = True
+                size -= 3
+                if r.random() < 0.5:
+                    size = min(size, 1)      # often (almost) nothing after the loop: the process restarts right away
             elif form == 'break':
                 out.append(('break',))
                 self.features.add('break')
@@ -721,6 +789,10 @@ def gen_seq_design(rnd, size=8, reset=None, step_cond=False, with_conc=True):
     oo = [Obj(f"self.{o[0]}", o[1], o[2], o[0], 'out') for o in outs]
     so = [Obj(o[0], o[1], o[2], o[0], 'sig') for o in sigs]
     vo = [Obj(o[0], o[1], o[2], o[0], 'var') for o in vars_]
+    bo = []
+    if rnd.random() < 0.4:
+        vars_.append(('vb', 'bool', None, rnd.randrange(2)))
+        bo = [Obj('vb', 'bool', None, 'vb', 'var')]
     # partition the outputs between the clocked and the concurrent context
     n_conc = 1 if with_conc else 0
     conc_outs = oo[len(oo) - n_conc:] if n_conc else []
@@ -731,10 +803,11 @@ def gen_seq_design(rnd, size=8, reset=None, step_cond=False, with_conc=True):
         outs = [tuple(o) + (True,) if o[0] == push_outs[0].name else o for o in outs]
     plain_outs = [o for o in seq_outs if o not in push_outs]
     env = Env()
-    env.read = ins + oo + so + vo
+    env.read = ins + oo + so + vo + bo
     env.wsig = plain_outs + so
     env.wpush = push_outs
     env.wvar = vo
+    env.wbool = bo
     for a in arrs:
         ao = Obj(a[0], a[1], a[2], a[0], 'arr')
         env.warr.append((ao, a[3], a[4]))
@@ -812,6 +885,9 @@ def gen_reset_design(rnd, size=8):
     feats = list(feats) + ['coroutine' if coro else 'plain', 'async-reset' if reset['is_async'] else 'sync-reset',
                            'active-low' if reset['active_low'] else 'active-high'] + (['step-cond'] if step else [])
     ctx = spec['ctxs'][0]
+    if rnd.random() < 0.15:
+        spec['ctrl_vector'] = reset['sig']
+        feats.append('clock-and-reset-from-one-vector')
     # noreset on some driven objects (whole-object and slice writes both occur in the bodies)
     def mark(lst, prob):
         out = []
